@@ -679,9 +679,28 @@ def float_(*a, **k):
 EXT = {}
 
 
+_F_OVER = 2 ** 1024 - 2 ** 970      # smallest integer magnitude whose conversion to float overflows (round-half-even)
+
+
+def _math_contract(name, real, *a, **k):
+    """assumed contracts of the math functions the library may call with a number"""
+    v = a[0] if a else None
+    if isinstance(v, SymNum) and name in ('math.isfinite', 'math.isnan', 'math.isinf'):
+        if isinstance(v, SymInt) and v.pytype is not bool:
+            big = z3.Or(v.e >= _F_OVER, v.e <= -_F_OVER)
+            if decide([big, z3.Not(big)]) == 0:
+                raise OverflowError('int too large to convert to float')
+        return name == 'math.isfinite'
+    if any(isinstance(x, Sym) for x in a):
+        raise Unsupported(f'{name} of a proxy')
+    return real(*a, **k)
+
+
 def ext(name, real, *a, **k):
     k.pop('_dv_ns', None)
     f = EXT.get(name)
+    if f is None and name.startswith('math.'):
+        return _math_contract(name, real, *a, **k)
     if f is not None:
         return f(real, *a, **k)
     if name == 'print':
